@@ -16,6 +16,7 @@ claimed = {
  "C09": ("W-proxy", "HTTP/1 pool, a ping-pong xprotocol (bolt wire format behind PoolMode=PingPong, registered through the public codec API) and the multiplex pool: pool books (verif accessors) against the simulated network's truth at every quiescent point, at most one exchange in flight per ping-pong connection as seen by the upstream actor, no lease outstanding at idle, and a capacity probe of max_connections/max_requests concurrent fresh requests after every history of replies, resets, timeouts, refusals, overflows and closes", "binding pool (connpool_binding.go) and the HTTP/2 pool are not exercised; 'dirty reuse' is judged from the upstream's view (a request arriving before the previous exchange completed)", "4 C09"),
  "C07": ("W-proxy", "every seed is run under 4 transport segmentations (whole frames, random cuts, 1-7 byte pieces, single bytes; different latencies and schedules) of the same workload on fixed-protocol and Auto listeners (bolt, boltv2, HTTP/1); a scheduling-independent digest of what every upstream and client saw must be identical, and the C01 oracle (each request forwarded exactly once, byte-identical) holds in each", "dubbo, dubbo-thrift, tars and HTTP/2 peers are not built yet in this snapshot", "4 C07"),
  "C08": ("W-proxy", "malformed-input clients (single-field corruptions of valid frames: every length field <- 0,1,2,3,max,truth+-1,2^31; truncation (+FIN); random bytes; flipped bytes; inserted bytes; HTTP/1 absurd Content-Length / bad chunk size / header without colon) and upstreams answering with garbage or corrupted replies, next to ordinary clients whose requests must still each get exactly one outcome in bounded time with no cross-talk; the process must survive (a Go panic/fatal error with a MOSN frame on the stack is a violation), no allocation > 64 MiB for announced-but-unarrived bytes by MOSN's own decoders", "bolt, boltv2, HTTP/1 and the Auto matcher only in this snapshot; HPACK / HTTP/2 frames not yet; a step that never quiesces is reported as infrastructure failure (exit 2), not as a violation", "4 C08"),
+ "C14": ("W-proxy", "chains of 1-6 scripted stream filters (registered through api.RegisterStream; every receive phase, send filters) whose per-request verdicts (continue, stop, terminate, hijack, hijack with body, direct response, re-match, re-choose) travel in a request header; the recorded call log is compared with a reference model of the statement (order, once per pass, resume at the requesting filter), an answered or terminated request must never appear at any upstream, an answered request gets exactly that reply, and every response passes the send filters in order; all under the upstream faults and schedules of the C03 arm", "bolt, boltv2, HTTP/1; a response discarded in favour of a retry may pass the send filters too (k complete passes, k <= 1 + answered attempts)", "4 C14"),
 }
 
 na = {
@@ -24,7 +25,7 @@ na = {
  "C15": "subset selection and both builders are pure functions of (host metadata, selectors, fallback policy, criteria); no schedule, time, fault or history in the statement",
  "C19": "load/dump round trip is a pure function of the configuration; no time, I/O fault, concurrency or history in the statement",
 }
-pending = ["C11","C12","C14","C17","C18","C20"]
+pending = ["C11","C12","C17","C18","C20"]
 
 def main():
     checks=[]
